@@ -185,6 +185,29 @@ CLAIMS = {
        "semantics (largest unvalidated item of the trusted base); arguments over printable ASCII and non-ASCII bytes; "
        "no-early-prompt hypothesis at stream level in the theorem, at delivered-piece level in the Spec.",
   ref="DESIGN.md section 4 C19"),
+ "C09": dict(
+  text="Theorems C09.env_roundtrip, readback_lemma, env_set_rejected, runProg_spec, spec_holds, block_restores, exec_after_block: "
+       "over a reactive remote model (shell frames with exported variables / cwd / options behind the tty model, export, "
+       "`\" ${NAME}\"` expansion, echo with dash's escape processing, printf, nested shells) composed with the channel model, for "
+       "EVERY value without CR / forbidden byte and every fragmentation oracle env(v,x); env(v) = x and the remote's variable holds x; "
+       "for EVERY program of sets/reads/cd/set-option/raise with plain and guarded subshell blocks nested to any depth, each step "
+       "returns what a one-frame reference semantics says, the frame pushed by a subshell is popped on normal AND exceptional exit, "
+       "and the machine is in sync afterwards (the next command is exact). Correspondence on REAL bash and dash (environment seen by a "
+       "helper program through a side file, pwd, $-), every read re-fragmented, fragmentation replayed on the model.",
+  note="partial: the shells, their builtins and the tty are the environment (the remote model is validated against the installed bash "
+       "5.2 / dash on every case, not proved); the spawned shell is of the same kind; PS1 is not exported by the outer shell.",
+  ref="DESIGN.md section 4 C09"),
+ "C11": dict(
+  text="Theorems C11.bytes_roundtrip(_b64), text_roundtrip, write_bytes_spec, read_bytes_spec, write_text_spec, read_text_spec, "
+       "text_forbidden, spec_holds, Files.Remote.ttyRead_all (the canonical-mode double-EOF rule), Files.b64_ok: for EVERY byte string d "
+       "and every fragmentation, after write_bytes d the model file holds d, the return value is |d| and read_bytes = d (for any codec "
+       "satisfying CodecOk, instantiated by a concrete base64 proved correct); for every text in the domain the file is its UTF-8 "
+       "encoding and read_text returns it, incl. empty text, no final newline, only newlines; a forbidden byte is rejected. "
+       "Correspondence on REAL bash and dash with the file read independently from the local filesystem; lengths around the 57/76-byte "
+       "base64 and 512-byte slice boundaries, all 256 byte values, multi-line non-ASCII text; fragmentation replayed on the model.",
+  note="partial: tee / base64 / cat binaries and the kernel tty are the environment; text lines below the 4096-byte tty line limit; "
+       "text must not contain the prompt.",
+  ref="DESIGN.md section 4 C11"),
 }
 
 REASON_TODO = "check not built yet (work in progress; will be claimed once its Lean model, theorems and correspondence harness exist)"
